@@ -65,7 +65,8 @@ type mstate struct {
 	aware       bool
 	cancelled   bool
 	deadline    int64 // ns, -1 = none
-	unpredicted bool  // a cancellation landed where the model does not decide the outcome (inside a batch)
+	runIdx      int
+	unpredicted bool // a cancellation landed where the model does not decide the outcome (inside a batch)
 	sc          *Scn
 	visits      []int
 	now         int64
@@ -151,6 +152,7 @@ func runModelMode(sc *Scn, aware bool) *Model {
 		m.now = sc.Ctx.DeadlineUs*1000 + 1e6
 	}
 	for r := 0; r < runs; r++ {
+		m.runIdx = r
 		m.run = &MRun{FailEnd: -1}
 		m.steps = 0
 		if sc.Ctx.Kind == "precancel" || sc.Ctx.Kind == "predeadline" {
@@ -234,7 +236,7 @@ func (m *mstate) runLeaf(n *NodeSpec) (string, string) {
 	m.visits[n.ID]++
 	m.run.Visits = append(m.run.Visits, [2]int{n.ID, v})
 	vs := n.visit(v)
-	cfg := n.config()
+	cfg := n.configRun(m.runIdx)
 	pdesc := "nil"
 	if m.cancelled {
 		m.visits[n.ID]--
@@ -414,7 +416,7 @@ func (m *mstate) runBatch(n *NodeSpec) (string, string) {
 	m.visits[n.ID]++
 	m.run.Visits = append(m.run.Visits, [2]int{n.ID, v})
 	vs := n.visit(v)
-	cfg := n.config()
+	cfg := n.configRun(m.runIdx)
 	if m.cancelled {
 		m.unpredicted = true // a batch entered with a done context is C11's subject
 	}
@@ -468,7 +470,7 @@ func (m *mstate) runBatch(n *NodeSpec) (string, string) {
 		}
 	}
 	action := "default"
-	if hasPhase(n, 2) {
+	if hasPhase(n, 2) && !(n.OptPost && m.sc.OptPostIgnored) {
 		var slots []string
 		fixed := true
 		for _, mi := range mb.Items {
